@@ -110,6 +110,20 @@ Theorem C05_implicit_partial :
 Proof. exact implicit_solves. Qed.
 Print Assumptions C05_implicit_partial.
 
+(* the force-velocity derivative used by the implicit integrators for an actuator with affine gain and
+   bias and no activation (mjd_actuator_vel): it IS the derivative of the applied force -- gain times
+   the CLAMPED control plus bias, clamped to forcerange -- wherever that derivative exists (force not
+   exactly at a forcerange limit); in particular 0 when saturated at EITHER limit, for any
+   (asymmetric, one-sided) forcerange flo < fhi *)
+Theorem C05_actuator_vel :
+  forall (fl : bool) (flo fhi g0 g1 g2 b0 b1 b2 len u v : R),
+    flo < fhi ->
+    (fl = true -> act_force_raw g0 g1 g2 b0 b1 b2 len u v <> flo /\ act_force_raw g0 g1 g2 b0 b1 b2 len u v <> fhi) ->
+    is_derive (fun w => act_force fl flo fhi g0 g1 g2 b0 b1 b2 len u w) v
+              (act_force_vel fl flo fhi g2 b2 u (act_force fl flo fhi g0 g1 g2 b0 b1 b2 len u v)).
+Proof. exact act_force_vel_correct. Qed.
+Print Assumptions C05_actuator_vel.
+
 (* non-vacuity / the variants that the theorems exclude *)
 Example C05_oldvel_differs :
   qpos (euler [JSlide] 1 {| qpos := [0]; qvel := [1]; time := 0 |} [1]) = [2] /\
